@@ -115,6 +115,7 @@ def check_C10(run):
         run.model_check("Order_t", "MC_Order.tla", "MC_Order_t.cfg", coverage=False, timeout=3000)
     g = Gen(run.seed * 1000 + 10)
     run.conform("order", F.fam_order(g, "C10", sizes(run, 500, 4000), exhaustive3=True), ["C10."])
+    run.conform("orderbig", F.fam_order_big(g, "C10", sizes(run, 32, 300)), ["C10.", "C19.redzone", "C19.bad_free"], per_chunk=2)
     if run.tier != "quick":
         g2 = Gen(run.seed * 1000 + 101)
         run.conform("order_i64", F.fam_order(g2, "C10", 2000), ["C10."], variant="v1")
@@ -161,7 +162,7 @@ def check_C15(run):
     mc_factor(run, ["q"], ["p"])
     g = Gen(run.seed * 1000 + 15)
     types = {"d": 1.0, "z": 0.3, "s": 0.2, "c": 0.15} if run.tier == "quick" else FULL_TYPES
-    scen = F.fam_ilu(g, "C15", sizes(run, 1500, 12000), types)
+    scen = merge(F.fam_ilu(g, "C15", sizes(run, 1500, 12000), types), F.fam_ilu_split(g, "C15", sizes(run, 300, 3000), types))
     run.conform("ilu", scen, ["C15.", "C03."])
     # "never breaks down": the same runs under ASan + UBSan (observer)
     g2 = Gen(run.seed * 1000 + 151)
